@@ -36,6 +36,12 @@ def eval_call(E, node, st):
                     return [Out("ok", s, V(INT, pymodel.iter_pos(E, s, v)))]
                 if v.kind.tag == "seq":
                     return [Out("ok", s, v)]
+                if v.kind.tag == "fn" and isinstance(v.t, tuple) and v.t[0] == "dictview":
+                    # seq(d.values()) / seq(d.keys()): the view as a sequence (its defining axiom is a global fact)
+                    s2, sv = pymodel.dictview_seq(E, s, v)
+                    for c in s2.pc[len(s.pc):]:
+                        E.add_axiom(c)
+                    return [Out("ok", s, sv)]
                 return [Out("ok", s, V(Kind("seq", v.kind[1]), E.list_seq(s, v)))]
             return E.bind(E.eval(node.args[0], st), ki)
         if f.id == "values" and E.spec_mode and len(node.args) == 1:
